@@ -47,6 +47,53 @@ Theorem C09_infwedge_surfaces_iff_inside : forall start interior p,
 Proof. exact wedge_surfaces_iff_inside. Qed.
 Print Assumptions C09_infwedge_surfaces_iff_inside.
 
+(** Parallelepiped AS BUILT agrees with the documented solid when alpha = 0
+    (sines / cosines of theta, phi explicit; cos(theta) > 0 for theta in [0, 1/4) turn) *)
+Theorem C09_parallelepiped_surfaces_iff_inside_alpha0 : forall hx hy hz sinth costh sinphi cosphi p,
+  0 < hx -> 0 < hy -> 0 < hz -> 0 < costh ->
+  on_any (ppiped_surfaces_sc hx hy hz 0 1 sinth costh sinphi cosphi) p = false ->
+  (all_hold (ppiped_surfaces_sc hx hy hz 0 1 sinth costh sinphi cosphi) p = true
+   <-> inside_ppiped_sc hx hy hz 0 1 sinth costh sinphi cosphi p = true).
+Proof. exact ppiped_surfaces_iff_inside_alpha0. Qed.
+Print Assumptions C09_parallelepiped_surfaces_iff_inside_alpha0.
+
+(** FINDING (known): for alpha <> 0 build() does not produce the documented solid *)
+Theorem C09_parallelepiped_alpha_refuted :
+  exists hx hy hz alpha theta phi p,
+    0 < hx /\ 0 < hy /\ 0 < hz /\ - / 4 < alpha < / 4 /\ 0 <= theta < / 4 /\ 0 <= phi < 1 /\
+    on_any (surfaces_of 0 (PPpiped hx hy hz alpha theta phi)) p = false /\
+    inside_prim (PPpiped hx hy hz alpha theta phi) p = true /\
+    all_hold (surfaces_of 0 (PPpiped hx hy hz alpha theta phi)) p = false.
+Proof. exact ppiped_alpha_refuted_turns. Qed.
+Print Assumptions C09_parallelepiped_alpha_refuted.
+
+(** ** bounding boxes declared by build() (bzone_sound: partial) *)
+Theorem C09_bzone_sound_partial : forall hx hy hz r hh, 0 <= r ->
+  (bbox_ext_sound (PBox hx hy hz) /\ bbox_int_sound (PBox hx hy hz)) /\
+  bbox_ext_sound (PSphere r) /\
+  (bbox_ext_sound (PCyl r hh) /\ bbox_int_sound (PCyl r hh)).
+Proof.
+  intros hx hy hz r hh Hr. split; [apply box_bbox_sound|]. split; [now apply sphere_bbox_ext_sound|].
+  now apply cyl_bbox_sound.
+Qed.
+Print Assumptions C09_bzone_sound_partial.
+
+(** FINDING (known): exterior box of the Parallelepiped does not contain the solid *)
+Theorem C09_parallelepiped_bbox_refuted :
+  exists hx hy hz alpha theta phi p e,
+    0 < hx /\ 0 < hy /\ 0 < hz /\ - / 4 < alpha < / 4 /\ 0 <= theta < / 4 /\ 0 <= phi < 1 /\
+    all_hold (surfaces_of 0 (PPpiped hx hy hz alpha theta phi)) p = true /\
+    inside_prim (PPpiped hx hy hz alpha theta phi) p = true /\
+    declared_bboxes (PPpiped hx hy hz alpha theta phi) = Some (None, Some e) /\
+    in_bbox e p = false.
+Proof. exact ppiped_bbox_ext_refuted. Qed.
+Print Assumptions C09_parallelepiped_bbox_refuted.
+
+(** FINDING: the interior box SurfaceClipper gives a sphere is not inside the sphere *)
+Theorem C09_sphere_interior_bbox_refuted : exists r, 0 < r /\ ~ bbox_int_sound (PSphere r).
+Proof. exact sphere_bbox_int_refuted. Qed.
+Print Assumptions C09_sphere_interior_bbox_refuted.
+
 (** ** objects *)
 Theorem C09_csg_semantics : forall tol (a b : obj R) l p,
   (inside tol (Neg a) p = true <-> ~ inside tol a p = true) /\
